@@ -122,9 +122,8 @@ pub fn run(tier: Tier) -> i32 {
     run.stage("Decimal::from / try_from(u128)", json!({"complete_types": ["u8", "i8", "u16", "i16"], "wider_types": "range ends, small values, powers of ten and of two +-1"}));
 
     // T::try_from(d): complete small scope covers both range ends of the 8/16-bit types in every representation
-    let n: i128 = if th { 6_000_000 } else { 700_000 };
-    let small: Vec<i128> = (-n..=n).collect();
-    run.par_for(&small, || {}, |&a, l| { for f in 0..=18u8 { into_case(a, f, l); } });
+    let n: i128 = if th { 30_000_000 } else { 700_000 };
+    run.par_range(-n, n, || {}, |a, l| { for f in 0..=18u8 { into_case(a, f, l); } });
     run.stage("try_from(Decimal): small scope", json!({"|a|<=": n, "scales": 19, "targets": TYPES}));
     // boundary values of every type at every scale k: {MIN-1..MAX+1}*10^k at scale k, and the same +-1 / +-5*10^(k-1) in the last places
     let mut items: Vec<(usize, u8)> = Vec::new();
